@@ -39,9 +39,9 @@ CLAIMS = {
          "signed entries and their mutations (every single-bit flip in the thorough tier).", "section 6 C05",
          "Known finding (recorded, not repaired): RCD-e signatures are malleable in byte 64 (Refuted/C05.v). "),
  "C06": ("Coq theorem over all blocks: relation rows are never deleted, so an entry hash that counts as executed does so in every later state; both the arrival path and the "
-         "holding path consult them (an executed, pending or rejected entry written again has no effect: C08/C17 lemmas). Tie: chains repeating entries in the same block, "
+         "holding path consult them (an executed, pending or rejected entry written again has no effect: C08/C17 lemmas); the holding windows of the rated heights partition the heights (each held height is visited by exactly one block of any chain). Tie: chains repeating entries in the same block, "
          "later blocks, across blocks without rates, after execution and after each reject code, compared with the node on balances, status, holding and relation rows.",
-         "section 6 C06", "'considered exactly once' for held batches is proved as two window theorems (a held height is looked at by the next rated block; it is not looked at again once a rated height lies between); that a batch is in at most one window between two consecutive rated heights is their corollary, the end-to-end chain statement is by correspondence. "),
+         "section 6 C06", "'considered exactly once' for held batches is proved end to end: in every state a held height lies in the window of exactly one rated height (the first rated height above it), and over every chain with increasing heights exactly one block looks at the batches held at a height; a block that ends up unrated runs no holding pass. "),
  "C07": ("Coq theorems over all int64 amounts and uint64 rates: Convert = floor(in*src/dst) with min/max against averages from PIP-10, error exactly on zero rate/average or "
          "int64 overflow, value never increases; chain level: a batch with conversions is only put into holding by its own block and executed by the next block that has "
          "rates, at that block's rates: for every block without winners, whatever it contains, the status of every earlier batch is untouched (theorem over the whole block function); a block that records rates runs the holding pass with exactly the rate map it recorded for its own height and the averages of the last rated height before it, and in that pass an admitted held conversion is executed exactly (one debit, one credit of floor(in*src/dst), no other cell, status = executing height, recorded to_amount = the credit); model of SyncBlock tied to the real node on chains with graded / ungraded patterns, including unrated snapshot heights, and on seed-driven random chains; a daemon under API load against an unloaded one.",
@@ -86,7 +86,7 @@ CLAIMS = {
          "credited amounts, its status says the executing height and EVERY balance cell moves by exactly what those rows stand for (arrival path, holding path, and the coinbase-style "
          "writers: rewards, burns, developer and staking payouts); for EVERY chain without conversions into PEG and with distinct batch hashes, replaying the recorded history "
          "reproduces every balance outside the three special addresses (replay_accounts); paging by LIMIT/OFFSET over a fixed order "
-         "returns every action exactly once; the history queries of the API layer are modelled (Model/Api.v: count query, data query with every filter, ORDER / LIMIT / OFFSET, the page walk, the status look-up) and proved: on well-formed history tables the reported count is the number of matching actions, the page walk returns each exactly once in order, a query by hash / address / height returns exactly the recorded actions of that entry / involving that address / entered at that height, descending order is the same set; a second batch row for one hash is shown to break paging (the schema allows it). Tie: the real SelectTransactionHistoryActionsBy{Hash,Address,Height} / SelectTransactionHistoryStatus of the node's final database walked page by page and compared with the query model evaluated on the MODEL's final state (about 150 walks per chain), whose history tables are also checked for well-formedness; history, lookup, status, holding and relation rows compared with the node; executable oracle 'replaying the recorded "
+         "returns every action exactly once; the history queries of the API layer are modelled (Model/Api.v: count query, data query with every filter, ORDER / LIMIT / OFFSET, the page walk, the status look-up) and proved: on well-formed history tables the reported count is the number of matching actions, the page walk returns each exactly once in order, a query by hash / address / height returns exactly the recorded actions of that entry / involving that address / entered at that height, descending order is the same set; a second batch row for one hash is shown to break paging (the schema allows it); the key and foreign-key facts these theorems need are proved invariants of every chain, the remaining one (one batch row per hash) is tested on the model's final state of every chain by a boolean function proved sound. Tie: the API server runs during the sync with clients polling get-transaction-status; the real SelectTransactionHistoryActionsBy{Hash,Address,Height} / SelectTransactionHistoryStatus of the node's final database walked page by page and compared with the query model evaluated on the MODEL's final state (about 150 walks per chain), whose history tables are also checked for well-formedness; history, lookup, status, holding and relation rows compared with the node; executable oracle 'replaying the recorded "
          "history reproduces every balance' on the node's dumps; the real API server (get-transactions by hash/address/height/txid with every filter and explicit offsets, "
          "get-transaction, get-transaction-status, get-pegnet-balances) walked page by page and compared with plain SELECTs over a read-only connection.", "section 6 C17",
          "The JSON-RPC handlers above the query functions (parameter decoding, nextoffset arithmetic in srv/) are exercised by the API walk, not modelled. "),
